@@ -26,6 +26,12 @@ KNOWN = {
     ("nix_manipulator/mapping.py", "EXPRESSION_TYPES"): "type registry, written only by register_expression at import time",
     ("nix_manipulator/mapping.py", "TREE_SITTER_TYPE_TO_EXPRESSION"): "type registry, written only by register_expression at import time",
 }
+KNOWN_REGISTRY_READERS = {
+    ("nix_manipulator/expressions/identifier.py", "value"),  # getter and setter: resolve with the attached chain
+    ("nix_manipulator/resolution.py", "scopes_for_owner"),  # inherited chain of an owner (its staleness on rec sets is a recorded finding)
+    ("nix_manipulator/resolution.py", "attach_resolution_context"),
+    ("nix_manipulator/resolution.py", "get_resolution_context"),
+}
 # the justification of a whitelisted object depends on what kind of object it is
 KNOWN_KIND = {"_SOURCE_BYTES": "ContextVar", "_SOURCE_PATH": "ContextVar", "_PARSER_LOCAL": "local"}
 MUTABLE_CALLS = {"dict", "list", "set", "defaultdict", "OrderedDict", "local", "ContextVar", "deque", "WeakValueDictionary",
@@ -134,6 +140,23 @@ def run(tier="quick"):
                         obligations += 1
                         violations.append(dict(obligation=f"global-state[{rel}: mutable default of {node.name}]", check="global-state", has_input=False,
                                                what=f"mutable default argument in {rel}::{node.name}"))
+        # readers of the resolution-context registry: whoever asks "does this object already carry a context?" makes a lookup or an
+        # edit depend on whether the object was visited before (a context is a snapshot of scopes; the three known readers use it
+        # only to resolve with it, and re-attach on every access path).  A new reader is history dependence by construction.
+        for node in ast.walk(tree):
+            if isinstance(node, (ast.FunctionDef, ast.AsyncFunctionDef)):
+                for c in ast.walk(node):
+                    if isinstance(c, ast.Call) and isinstance(c.func, (ast.Name, ast.Attribute)):
+                        fname = c.func.id if isinstance(c.func, ast.Name) else c.func.attr
+                        if fname in ("get_resolution_context", "_get_context"):
+                            obligations += 1
+                            if (rel, node.name) in KNOWN_REGISTRY_READERS:
+                                discharged += 1
+                            else:
+                                violations.append(dict(obligation=f"global-state[{rel}: {node.name} reads the resolution-context registry]",
+                                                       check="global-state", has_input=False,
+                                                       what=f"{rel}::{node.name} asks the resolution-context registry whether an object already has a "
+                                                            f"context: what it does then depends on earlier lookups / edits of the same live document"))
         functions.append(dict(function=rel, contract="no unknown process-wide mutable state", status="ok"))
     return dict(name="global-state", obligations=obligations, discharged=discharged, violations=violations, functions=[],
                 assumptions=["global-state inventory is syntactic: module-level names bound to mutable containers / ContextVar / "
